@@ -403,7 +403,7 @@ fn gen_int_value(rng: &mut Rng) -> Value {
 }
 
 fn gen_float_value(rng: &mut Rng) -> Value {
-    const FS: [f64; 12] = [0.5, 1.5, -2.25, 0.1, 3.0, 1e20, 1e-7, 0.0, -0.0, 2.0, 123456.789, 1e16];
+    const FS: [f64; 17] = [0.5, 1.5, -2.25, 0.1, 3.0, 1e20, 1e-7, 0.0, -0.0, 2.0, 123456.789, 1e16, 1e-17, -2e-16, 1e-300, 5e-324, 2.220446049250313e-16];
     match rng.below(24) {
         0 => Value::from(f64::NAN),
         1 => Value::from(f64::INFINITY),
@@ -623,7 +623,7 @@ impl<'a> Gen<'a> {
             // a second level on an undefined that is not a plain path (unfused LoadAttr / subscript): an error
             7 if self.rng.chance(1, 3) => Ex::Attr(b(Ex::Index(b(atom("xs")), b(atom("99")), false)), "a".into(), self.rng.chance(1, 2)),
             7 => Ex::Attr(b(Ex::Index(b(atom("user")), b(str_lit("name")), false)), "a".into(), false),
-            0 => Ex::Attr(b(atom("user")), "zip".into(), false),
+            0 => Ex::Attr(b(atom("user")), (*self.rng.pick(&["zip", "nick"])).into(), false),
             1 => Ex::Attr(b(atom(*self.rng.pick(&UNBOUND))), "a".into(), true),
             2 => Ex::Index(b(atom("xs")), b(atom("99")), false),
             3 => Ex::Attr(b(atom("n")), "a".into(), true),
@@ -1050,6 +1050,57 @@ fn simple_case(stream: &str, src: &str, ctx: Vec<(String, Value)>, global: Vec<(
 
 const THROW: &str = "throw(message=\"THROWN\")";
 
+/// values at the boundary of truthiness, of every kind (a float is falsy iff it is +0.0 or -0.0:
+/// tiny, subnormal and NaN floats are truthy; "0" is a non-empty string; empty containers are falsy)
+fn boundary_ctx() -> Vec<(String, Value)> {
+    let mut one_map = tera::Map::new();
+    one_map.insert("a".into(), Value::from(0));
+    vec![
+        ("f_tiny".into(), Value::from(1e-17)),
+        ("f_negtiny".into(), Value::from(-2e-16)),
+        ("f_eps".into(), Value::from(f64::EPSILON)),
+        ("f_small".into(), Value::from(1e-300)),
+        ("f_sub".into(), Value::from(5e-324)),
+        ("f_nan".into(), Value::from(f64::NAN)),
+        ("f_inf".into(), Value::from(f64::NEG_INFINITY)),
+        ("f_zero".into(), Value::from(0.0)),
+        ("f_negzero".into(), Value::from(-0.0)),
+        ("s_zero".into(), Value::from("0")),
+        ("s_space".into(), Value::from(" ")),
+        ("s_empty".into(), Value::from("")),
+        ("s_safe_empty".into(), Value::safe_string("")),
+        ("u128_zero".into(), Value::from(0u128)),
+        ("i128_zero".into(), Value::from(0i128)),
+        ("i128_min".into(), Value::from(i128::MIN)),
+        ("u128_max".into(), Value::from(u128::MAX)),
+        ("a_empty".into(), Value::from(Vec::<Value>::new())),
+        ("a_zero".into(), Value::from(vec![Value::from(0)])),
+        ("a_undef".into(), Value::from(vec![Value::undefined()])),
+        ("m_empty".into(), Value::from(tera::Map::new())),
+        ("m_one".into(), Value::from(one_map)),
+        ("y_empty".into(), Value::bytes(Vec::<u8>::new())),
+        ("y_zero".into(), Value::bytes(vec![0u8])),
+        ("b_false".into(), Value::from(false)),
+        ("v_none".into(), Value::none()),
+    ]
+}
+
+/// expressions whose value sits at such a boundary, with the truthiness the documentation gives
+const BOUNDARY_EXPRS: [(&str, bool); 12] = [
+    ("(f_tiny * 1)", true),
+    ("(f_tiny - f_tiny)", false),
+    ("(1 / 100000000000000000)", true),
+    ("(f_nan + 1)", true),
+    ("(f_sub / 2)", false),
+    ("(- f_negzero)", false),
+    ("(0 * f_negtiny)", false),
+    ("(f_eps / 2)", true),
+    ("(s_empty ~ s_empty)", false),
+    ("(s_empty ~ 0)", true),
+    ("[...a_empty]", false),
+    ("(i128_zero + u128_zero)", false),
+];
+
 fn lookup<'a>(ctx: &'a [(String, Value)], global: &'a [(String, Value)], name: &str) -> Value {
     if let Some((_, v)) = ctx.iter().rev().find(|(k, _)| k == name) {
         return v.clone();
@@ -1063,15 +1114,18 @@ fn lookup<'a>(ctx: &'a [(String, Value)], global: &'a [(String, Value)], name: &
 /// (a) and/or/ternary evaluate lazily: `throw()` / an erroring lookup in the position that must not
 /// be evaluated never fires, in the position that must be evaluated it does
 fn oracle_short_circuit(rng: &mut Rng, out: &mut Vec<Check>) {
-    let (ctx, global) = gen_contexts(rng, true);
+    let (mut ctx, global) = gen_contexts(rng, true);
+    ctx.extend(boundary_ctx());
     let mut names: Vec<String> = ctx.iter().map(|(k, _)| k.clone()).collect();
     names.push("u".into());
     names.push("g".into());
-    names.extend(["0", "1", "\"\"", "\"x\"", "[]", "[0]", "none", "true", "false", "0.0"].iter().map(|s| s.to_string()));
+    names.extend(["0", "1", "\"\"", "\"x\"", "[]", "[0]", "none", "true", "false", "0.0", "\"0\"", "-0.0", "0.00000000000000001"].iter().map(|s| s.to_string()));
+    names.extend(BOUNDARY_EXPRS.iter().map(|(e, _)| e.to_string()));
     for l in names {
         let lv = match l.as_str() {
-            "0" | "\"\"" | "[]" | "none" | "false" | "0.0" => Value::from(false),
-            "1" | "\"x\"" | "[0]" | "true" => Value::from(true),
+            "0" | "\"\"" | "[]" | "none" | "false" | "0.0" | "-0.0" => Value::from(false),
+            "1" | "\"x\"" | "[0]" | "true" | "\"0\"" | "0.00000000000000001" => Value::from(true),
+            e if BOUNDARY_EXPRS.iter().any(|(x, _)| *x == e) => Value::from(BOUNDARY_EXPRS.iter().find(|(x, _)| *x == e).unwrap().1),
             _ => lookup(&ctx, &global, &l),
         };
         let t = truthy(&lv);
@@ -1107,8 +1161,25 @@ fn oracle_short_circuit(rng: &mut Rng, out: &mut Vec<Check>) {
 
 /// (b) if / elif / else renders exactly the first truthy branch; later conditions are not evaluated
 fn oracle_if(rng: &mut Rng, out: &mut Vec<Check>) {
-    let (ctx, global) = gen_contexts(rng, true);
+    let (mut ctx, global) = gen_contexts(rng, true);
+    ctx.extend(boundary_ctx());
     let names: Vec<String> = ctx.iter().map(|(k, _)| k.clone()).chain(["u".to_string(), "g".to_string()]).collect();
+    // every boundary value on its own: if / not / ternary agree with the documented truthiness
+    for (name, v) in boundary_ctx() {
+        let t = truthy(&v);
+        out.push(Check {
+            oracle: "truthiness.boundary_values",
+            case: simple_case("oracle.if", &format!("{{% if {name} %}}T{{% else %}}F{{% endif %}}/{{{{ not {name} }}}}/{{{{ \"T\" if {name} else \"F\" }}}}/{{% if not {name} %}}n{{% elif {name} %}}y{{% endif %}}"), ctx.clone(), global.clone()),
+            expect: Expect::Text(format!("{}/{}/{}/{}", if t { "T" } else { "F" }, !t, if t { "T" } else { "F" }, if t { "y" } else { "n" })),
+        });
+    }
+    for (e, t) in BOUNDARY_EXPRS {
+        out.push(Check {
+            oracle: "truthiness.boundary_values",
+            case: simple_case("oracle.if", &format!("{{% if {e} %}}T{{% else %}}F{{% endif %}}/{{{{ not {e} }}}}/{{{{ \"T\" if {e} else \"F\" }}}}"), ctx.clone(), global.clone()),
+            expect: Expect::Text(format!("{}/{}/{}", if t { "T" } else { "F" }, !t, if t { "T" } else { "F" })),
+        });
+    }
     for _ in 0..40 {
         let n = rng.below(4) + 1;
         let conds: Vec<String> = (0..n).map(|_| names[rng.below(names.len())].clone()).collect();
@@ -1140,10 +1211,13 @@ fn oracle_undefined(rng: &mut Rng, out: &mut Vec<Check>) {
     let name = "Zoé".to_string();
     let mut user = tera::Map::new();
     user.insert("name".into(), Value::from(name.clone()));
+    // a field that exists and holds an explicit undefined (the F3 shape)
+    user.insert("nick".into(), Value::undefined());
     ctx.push(("user".into(), Value::from(user)));
     ctx.push(("n".into(), Value::none()));
     ctx.push(("xs".into(), Value::from(vec![Value::from(4), Value::from(5)])));
-    let err: [&str; 28] = [
+    let err: [&str; 34] = [
+        "{{ user.nick }}", "{{ user[\"nick\"] }}", "{{ user.nick.a }}", "{{ user.nick + 1 }}", "{% set m = {\"k\": u} %}{{ m.k }}", "{% for x in [u] %}{{ x }}{% endfor %}",
         // accesses the optimiser cannot fuse into a path load (the base is not a plain name)
         "{{ xs[99].a }}", "{{ xs[99].a is defined }}", "{{ user[\"zip\"].a }}", "{{ xs[99][0] }}", "{{ user[\"zip\"][1:] }}", "{{ xs[99].a | default(value=1) }}",
         "{{ u }}", "{{ user.zip }}", "{{ u + 1 }}", "{{ 1 * user.zip }}", "{{ 2 - u }}", "{{ u / 2 }}", "{{ u // 2 }}", "{{ u % 2 }}", "{{ u ** 2 }}", "{{ -u }}", "{{ - user.zip }}",
@@ -1157,6 +1231,11 @@ fn oracle_undefined(rng: &mut Rng, out: &mut Vec<Check>) {
         ("{{ u is defined }}", "false".into()),
         ("{{ user.zip is defined }}", "false".into()),
         ("{{ user.name is defined }}", "true".into()),
+        ("{{ user.nick is defined }}", "false".into()),
+        ("{{ user.nick | default(value=\"d\") }}", "d".into()),
+        ("{{ user.nick or \"d\" }}", "d".into()),
+        ("{{ user?.nick?.a is defined }}", "false".into()),
+        ("{% set m = {\"k\": u} %}{{ m.k is defined }}/{{ m | length }}", "false/1".into()),
         ("{{ u is undefined }}", "true".into()),
         ("{{ u | default(value=\"d\") }}", "d".into()),
         ("{{ user.zip | default(value=\"d\") }}", "d".into()),
